@@ -57,6 +57,7 @@ class Engine:
         self.externals = {}          # name -> model callable(E, args, node)
         self.loop_specs = {}         # (function, ordinal) -> LoopSpec
         self.trusted_init = set()    # globals whose initialiser is the memory content (never written in the TU)
+        self.merge_ifs = set()       # functions in which side-effect-only ifs are merged (ite) instead of forking the path
         self.stats = {"paths": 0, "branches": 0, "solver_checks": 0, "cut_paths": 0}
         self.notes = set()
         self.used_inline = set()
@@ -1017,10 +1018,119 @@ class Engine:
         if s.get("hasInit") or s.get("hasVar"):
             raise Unsupported("if with init/condition variable")
         cond = self.rv(inner[0], fr)
-        if self.branch(truth(cond)):
+        tc = truth(cond)
+        if fr.fname in self.merge_ifs and not isinstance(tc, bool) and self.mergeable(inner[1]) \
+                and (len(inner) < 3 or self.mergeable(inner[2])):
+            if self.merged_if(tc, inner[1], inner[2] if len(inner) > 2 else None, fr):
+                return
+        if self.branch(tc):
             self.exec(inner[1], fr)
         elif len(inner) > 2:
             self.exec(inner[2], fr)
+
+    # ---- state merging: `if (c) {assignments} else {assignments}` without forking the path
+    _MERGE_STMTS = ("CompoundStmt", "NullStmt", "BinaryOperator", "CompoundAssignOperator", "UnaryOperator", "IfStmt", "ParenExpr")
+
+    def mergeable(self, node):
+        k = node.get("kind")
+        if k is None:
+            return True
+        if k in ("ReturnStmt", "BreakStmt", "ContinueStmt", "GotoStmt", "ForStmt", "WhileStmt", "DoStmt", "SwitchStmt", "CallExpr",
+                 "DeclStmt", "LabelStmt"):
+            return False
+        return all(self.mergeable(c) for c in node.get("inner", []))
+
+    def merged_if(self, tc, then, els, fr):
+        c = z3.simplify(tc)
+        if z3.is_true(c) or z3.is_false(c):
+            return False
+        snap = (dict(fr.locals), dict(self.state.mem), dict(self.state.ver), set(self.state.written), len(self.pc),
+                len(self.path_obls), dict(self.counter), set(self._assumed), self.nblocks)
+
+        def restore():
+            fr.locals.clear()
+            fr.locals.update(snap[0])
+            self.state.mem = dict(snap[1])
+            self.state.ver = dict(snap[2])
+            self.state.written = set(snap[3])
+
+        def run_branch(cnd, body):
+            base = len(self.pc)
+            self.assume(cnd)
+            if body is not None:
+                self.exec(body, fr)
+            facts = self.pc[base + 1:] if len(self.pc) > base and self.pc[base].eq(cnd) else self.pc[base:]
+            out = (dict(fr.locals), dict(self.state.mem), set(self.state.written), list(facts))
+            del self.pc[base:]
+            del self.pc_syms[base:]
+            self._assumed = set(a.get_id() for a in self.pc)
+            return out
+        try:
+            l1, m1, w1, f1 = run_branch(c, then)
+            restore()
+            l2, m2, w2, f2 = run_branch(z3.Not(c), els)
+            merged_locals = {}
+            for k in set(l1) | set(l2):
+                if k not in l1 or k not in l2:
+                    raise Unsupported("merge: local declared in one branch")
+                merged_locals[k] = self.merge_val(c, l1[k], l2[k])
+            merged_mem = {}
+            for k in set(m1) | set(m2):
+                a = m1.get(k)
+                b = m2.get(k)
+                if a is None or b is None:
+                    blk = self.state.blocks[k[0]]
+                    init = self.initial_cell(blk, k[1], self.is_scalar_cell(blk, k[1]))
+                    a = init if a is None else a
+                    b = init if b is None else b
+                merged_mem[k] = a if a.eq(b) else z3.If(c, a, b)
+        except Unsupported:
+            # not mergeable after all: roll back and let the caller fork
+            restore()
+            del self.pc[snap[4]:]
+            del self.pc_syms[snap[4]:]
+            del self.path_obls[snap[5]:]
+            self.counter = dict(snap[6])
+            self._assumed = set(snap[7])
+            return False
+        fr.locals.clear()
+        fr.locals.update(merged_locals)
+        self.state.mem = merged_mem
+        self.state.written = w1 | w2
+        for f in f1:
+            self.assume(z3.Implies(c, f))
+        for f in f2:
+            self.assume(z3.Implies(z3.Not(c), f))
+        self.extra["merged_ifs"] = self.extra.get("merged_ifs", 0) + 1
+        return True
+
+    def merge_val(self, c, a, b):
+        if a is b:
+            return a
+        if isinstance(a, V) and isinstance(b, V):
+            if a.concrete and b.concrete and a.t == b.t:
+                return a
+            if not a.concrete and not b.concrete and a.t.eq(b.t):
+                return a
+            lo = None if a.lo is None or b.lo is None else min(a.lo, b.lo)
+            hi = None if a.hi is None or b.hi is None else max(a.hi, b.hi)
+            return V(z3.If(c, zt(a), zt(b)), lo, hi)
+        if isinstance(a, FnPtr) and isinstance(b, FnPtr):
+            return FnPtr(self.merge_val(c, a.code, b.code))
+        if isinstance(a, Ptr) and isinstance(b, Ptr):
+            if a.block is not b.block or len(a.steps) != len(b.steps) or a.null is not b.null and not (a.null is False and b.null is False):
+                raise Unsupported("merge of pointers into different objects")
+            steps = []
+            for x, y in zip(a.steps, b.steps):
+                if x[0] != y[0] or (x[0] == "f" and x[1] != y[1]):
+                    raise Unsupported("merge of pointers with different paths")
+                steps.append(x if x[0] == "f" else ("i", self.merge_val(c, x[1], y[1])))
+            return Ptr(a.block, steps, a.ctype, a.null)
+        if isinstance(a, Block) and a is b:
+            return a
+        if a is UNINIT and b is UNINIT:
+            return a
+        raise Unsupported("merge of %r and %r" % (a, b))
 
     def st_DoStmt(self, s, fr):
         body, cond = s["inner"][0], s["inner"][1]
